@@ -366,7 +366,6 @@ package cache
 //@ func cacheJanitor.stop
 //@   nopanic
 
-
 // The iterators handed to the janitor walk a snapshot taken under mu, never the live map.
 //@ props C15 C14 C16
 //@ func NewMemoryCache$3
